@@ -85,8 +85,23 @@ EnumModules ==
        ELSE << NsN("geo", << en, lamp, fn >>) >>
     : pos \in 1..3, inNs \in BOOLEAN, reopen \in {"no", "enum-in-earlier-block", "enum-in-later-block"} }
 
+\* Family "special": names and shapes the generators treat specially only in a narrower case than one might think -
+\* a free function named like an IPython display hook (only METHODS are renamed _repr_*_), a class whose name merely ends
+\* in `Values` with an insert(size_t, X) (only gtsam::Values gets insert_<name>), a derived class that redeclares a method of
+\* its base with the same signature (it still gets its own binding), a base / derived pair for the ignore list
+SzTy == Ty(<<"size_t">>, <<>>, FALSE, "", TRUE)
+SpecialModules ==
+  { << Func(hook, <<>>, Ret1(IntTy), <<Arg(IntTy, "x", FALSE, "")>>),
+       NsN("store", << ClassN("MyValues", <<>>, FALSE, FALSE, NoType,
+                              << Ctor("MyValues", <<>>, <<>>), Method("insert", <<>>, Ret1(VoidTy), <<Arg(SzTy, "j", FALSE, ""), Arg(DblTy, "vector", FALSE, "")>>, FALSE) >>) >>),
+       ClassN("Base", <<>>, virt, FALSE, NoType,
+              << Ctor("Base", <<>>, <<>>), Method("f", <<>>, Ret1(VoidTy), <<Arg(IntTy, "x", FALSE, "")>>, FALSE), Method("g", <<>>, Ret1(IntTy), <<>>, TRUE) >>),
+       ClassN("Derived", <<>>, virt, TRUE, TN(<<"Base">>, <<>>),
+              << Ctor("Derived", <<>>, <<>>), Method("f", <<>>, Ret1(VoidTy), <<Arg(IntTy, "x", FALSE, "")>>, FALSE), Method("h", <<>>, Ret1(DblTy), <<>>, TRUE) >>) >>
+    : hook \in {"html", "svg", "latex"}, virt \in BOOLEAN }
+
 Cases == CASE Family = "typedefs" -> TdModules [] Family = "serializable" -> SerModules [] Family = "members" -> MemberModules
-           [] Family = "enums" -> EnumModules
+           [] Family = "enums" -> EnumModules [] Family = "special" -> SpecialModules
 Init == done = FALSE
 Next == /\ ~done /\ done' = TRUE
         /\ \A cst \in Cases : PrintT(<<"CASE", ToJson([toks |-> RenderItems(cst), cst |-> cst, tree |-> AbsItems(cst)])>>)
